@@ -50,6 +50,9 @@ class CreateRegions(Harness):
                     out.append({"kinds": list(kinds), "shapes": shapes, "circ": True})
                 if a >= 2:
                     out.append({"kinds": list(kinds), "shapes": ["o", "o"] + ["s"] * (a - 2), "circ": True})
+        if tier == "quick":
+            # one 4-area layout class on a linear record (nested + chained + independent needs four areas)
+            out.append({"kinds": ["S"] * 4, "shapes": ["s"] * 4, "circ": False, "sorted": True})
         return out
 
     def vars(self, var):
@@ -60,7 +63,12 @@ class CreateRegions(Harness):
 
     def pre(self, var, v):
         n = v["n"]
-        return L.And([shape_pre("a%d" % i, sh, v, n) for i, sh in enumerate(var["shapes"])], 0 <= v["x"], v["x"] < n)
+        c = [shape_pre("a%d" % i, sh, v, n) for i, sh in enumerate(var["shapes"])] + [0 <= v["x"], v["x"] < n]
+        if var.get("sorted"):
+            # symmetry breaking for the 4-area variant: areas supplied by ascending start
+            for i in range(len(var["shapes"]) - 1):
+                c.append(v["a%ds0" % i] <= v["a%ds0" % (i + 1)])
+        return L.And(c)
 
     def run(self, var, v):
         n = v["n"]
@@ -117,4 +125,115 @@ class CreateRegions(Harness):
         return cl
 
 
-HARNESSES = [CreateRegions()]
+class Histories(Harness):
+    pid, name = "C06", "histories"
+    functions = [R + "add_subregion", R + "add_protocluster", R + "add_candidate_cluster", R + "create_regions",
+                 R + "clear_regions", R + "clear_subregions", R + "clear_candidate_clusters", R + "clear_protoclusters",
+                 R + "add_cds_feature", R + "_link_cds_to_parent"]
+    bound = ("one subregion, one single-protocluster candidate cluster, one gene (symbolic coordinates, linear record); every "
+             "sequence of <= 3 (quick) / 4 (thorough) operations from {clear_subregions, clear_candidate_clusters, clear_protoclusters, "
+             "clear_regions, create_regions, re-add subregion, re-add candidate} after the initial add + create")
+    outside = "longer histories; several areas of one kind"
+    OPS = ["clrS", "clrC", "clrP", "clrR", "create", "addS", "addC"]
+
+    def variants(self, tier):
+        depth = 3 if tier == "quick" else 4
+        out = []
+        for d in range(1, depth + 1):
+            for seq in itertools.product(self.OPS, repeat=d):
+                # re-adding something still present is not a legal history
+                ok, has_s, has_c = True, True, True
+                for op in seq:
+                    if op == "clrS":
+                        has_s = False
+                    elif op in ("clrC", "clrP"):
+                        has_c = False
+                    elif op == "addS":
+                        ok, has_s = ok and not has_s, True
+                    elif op == "addC":
+                        ok, has_c = ok and not has_c, True
+                if ok:
+                    out.append({"ops": list(seq)})
+        return out
+
+    def vars(self, var):
+        d = {"n": "int"}
+        for nm in ("sr", "cc", "g"):
+            d.update(shape_vars(nm, "s"))
+        return d
+
+    def pre(self, var, v):
+        return L.And([shape_pre(nm, "s", v, v["n"]) for nm in ("sr", "cc", "g")])
+
+    def run(self, var, v):
+        n = v["n"]
+        rec = mkrecord(n, False)
+        gene = DummyCDS(location=build("g", "s", v), locus_tag="g", translation="A")
+        rec.add_cds_feature(gene)
+        sub = make_area("S", "sr", "s", v, n, False)
+        cand = make_area("C", "cc", "s", v, n, False)
+        proto = cand.protoclusters[0]
+        rec.add_subregion(sub)
+        rec.add_protocluster(proto)
+        rec.add_candidate_cluster(cand)
+        rec.create_regions()
+        for op in var["ops"]:
+            if op == "clrS":
+                rec.clear_subregions()
+            elif op == "clrC":
+                rec.clear_candidate_clusters()
+            elif op == "clrP":
+                rec.clear_protoclusters()
+            elif op == "clrR":
+                rec.clear_regions()
+            elif op == "create":
+                rec.clear_regions()
+                rec.create_regions()
+            elif op == "addS":
+                rec.add_subregion(sub)
+            elif op == "addC":
+                if proto not in rec.get_protoclusters():
+                    rec.add_protocluster(proto)
+                rec.add_candidate_cluster(cand)
+        regions = rec.get_regions()
+
+        def in_record(region):
+            return any(region is r for r in regions)
+
+        def stale(area):
+            return area.parent is not None and not in_record(area.parent)
+        members = {}
+        for idx, r in enumerate(regions):
+            for a in r.subregions:
+                members.setdefault("S" if a is sub else "?", []).append(idx)
+            for a in r.candidate_clusters:
+                members.setdefault("C" if a is cand else "?", []).append(idx)
+        return {"stale_sub": stale(sub), "stale_cand": stale(cand),
+                "stale_gene": gene.region is not None and not in_record(gene.region),
+                "gene_region": (list(regions).index(gene.region) if gene.region is not None and in_record(gene.region) else -1),
+                "regions": [canon_loc(r.location) for r in regions], "members": members,
+                "numbers": [rec.get_region_number(r) for r in regions],
+                "sub_in_record": sub in rec.get_subregions(), "cand_in_record": cand in rec.get_candidate_clusters(),
+                "sub_parent": (list(regions).index(sub.parent) if sub.parent is not None and in_record(sub.parent) else -1),
+                "cand_parent": (list(regions).index(cand.parent) if cand.parent is not None and in_record(cand.parent) else -1)}
+
+    def post(self, var, v, out):
+        if is_raised(out):
+            return [("no_raise", False)]
+        cl = [("no_stale_parent_links", not (out["stale_sub"] or out["stale_cand"] or out["stale_gene"])),
+              ("numbered_in_order", out["numbers"] == list(range(1, len(out["regions"]) + 1)))]
+        # an area that is in a region points to exactly that region
+        for key, pkey in (("S", "sub_parent"), ("C", "cand_parent")):
+            idxs = out["members"].get(key, [])
+            cl.append(("area_in_at_most_one_region", len(idxs) <= 1))
+            if len(idxs) == 1:
+                cl.append(("parent_is_the_region_listing_it", out[pkey] == idxs[0]))
+        for a, b in itertools.combinations(out["regions"], 2):
+            cl.append(("regions_disjoint", L.Not(overlap_parts(a, b))))
+        g = model_parts("g", "s", v)
+        for idx, loc in enumerate(out["regions"]):
+            cl.append(("gene_points_to_containing_region", L.Iff(out["gene_region"] == idx, contains_parts(loc, g))))
+        return cl
+
+
+HARNESSES = [CreateRegions(), Histories()]
